@@ -1426,6 +1426,19 @@ func ruleENCSET(c *Ctx) []Obligation {
 							continue
 						}
 					}
+					// the output of a local escaper for another syntax (Graphviz DOT, JSON …): a function
+					// string → string of the module whose byte loop puts a backslash in front of every
+					// quote and backslash. IR strings do not come this way (ENC-STR holds them to the
+					// LLVM escapers); what is quoted here cannot end the literal early
+					if call, ok := inner.(*ast.CallExpr); ok && len(call.Args) == 1 {
+						if f := calleeOf(info, call); f != nil && f.Pkg() != nil && c.isLLVM(f.Pkg().Path()) {
+							if hfd := c.funcDecl(f); hfd != nil && hfd.Body != nil && escapesQuoteAndBackslash(c.declPkg[hfd].TypesInfo, hfd) {
+								o.Detail = "operand is the output of " + f.Name() + ", which escapes every quote and backslash (a local escaper for a syntax other than LLVM's)"
+								obs = append(obs, o)
+								continue
+							}
+						}
+					}
 					if path == pkgENC && fn.Name() == "EscapeIdent" {
 						o.Detail = "EscapeIdent's own output buffer; its verbatim-copy class is checked above"
 						obs = append(obs, o)
@@ -1467,6 +1480,77 @@ func ruleENCSET(c *Ctx) []Obligation {
 		})
 	}
 	return obs
+}
+
+// escapesQuoteAndBackslash: fd is func(s string) string with an if statement, inside a loop, whose
+// condition over one byte of s is true for the quote and for the backslash and whose body writes a
+// backslash.
+func escapesQuoteAndBackslash(info *types.Info, fd *ast.FuncDecl) bool {
+	if fd.Type.Params == nil || len(fd.Type.Params.List) != 1 || len(fd.Type.Params.List[0].Names) != 1 || fd.Type.Results == nil || len(fd.Type.Results.List) != 1 {
+		return false
+	}
+	if !isStringNamed(info.TypeOf(fd.Type.Params.List[0].Type)) || !isStringNamed(info.TypeOf(fd.Type.Results.List[0].Type)) {
+		return false
+	}
+	found := false
+	ast.Inspect(fd.Body, func(n ast.Node) bool {
+		var body *ast.BlockStmt
+		switch x := n.(type) {
+		case *ast.ForStmt:
+			body = x.Body
+		case *ast.RangeStmt:
+			body = x.Body
+		}
+		if body == nil {
+			return true
+		}
+		ast.Inspect(body, func(m ast.Node) bool {
+			is, ok := m.(*ast.IfStmt)
+			if !ok {
+				return true
+			}
+			// the byte variable: any identifier of byte type in the condition
+			var bv types.Object
+			ast.Inspect(is.Cond, func(k ast.Node) bool {
+				if id, ok := k.(*ast.Ident); ok {
+					if b, ok := info.TypeOf(id).(*types.Basic); ok && b.Kind() == types.Uint8 && info.Types[id].Value == nil {
+						bv = info.ObjectOf(id)
+					}
+				}
+				return true
+			})
+			if bv == nil {
+				return true
+			}
+			set, ok := byteSet(info, is.Cond, func(e ast.Expr) bool {
+				id, isID := e.(*ast.Ident)
+				return isID && info.ObjectOf(id) == bv
+			})
+			if !ok || !set['"'] || !set['\\'] {
+				return true
+			}
+			ast.Inspect(is.Body, func(k ast.Node) bool {
+				if call, ok := k.(*ast.CallExpr); ok && len(call.Args) == 1 {
+					if tv := info.Types[call.Args[0]]; tv.Value != nil {
+						switch tv.Value.Kind() {
+						case constant.Int:
+							if v, _ := constant.Int64Val(tv.Value); v == '\\' {
+								found = true
+							}
+						case constant.String:
+							if constant.StringVal(tv.Value) == "\\" {
+								found = true
+							}
+						}
+					}
+				}
+				return true
+			})
+			return true
+		})
+		return true
+	})
+	return found
 }
 
 // isByteTest: func(byte) bool.
